@@ -90,7 +90,8 @@ package data
 //@ at call google.golang.org/protobuf/encoding/protowire.AppendVarint#1 assert Seconds-value-is-written: callee_v == uint64(node.Seconds.x)
 //@ at call google.golang.org/protobuf/encoding/protowire.AppendTag#2 assert FractionalNanoseconds-is-wire-number-2-fixed32: callee_num == 2 && callee_typ == 5 && node.FractionalNanoseconds.m == 2
 //@ at call google.golang.org/protobuf/encoding/protowire.AppendFixed32#1 assert FractionalNanoseconds-value-is-written: callee_v == uint32(node.FractionalNanoseconds.v.x)
-//@ ensures encoded-length: len(result) == len(enc) + sizeTag(1) + sizeVarint(uint64(node.Seconds.x)) + ite(node.FractionalNanoseconds.m == 2, sizeTag(2) + 4, 0)
+//@ ensures encoded-length-without-nanoseconds: node.FractionalNanoseconds.m != 2 ==> len(result) == len(enc) + sizeTag(1) + sizeVarint(uint64(node.Seconds.x))
+//@ ensures encoded-length-with-nanoseconds: node.FractionalNanoseconds.m == 2 ==> len(result) == len(enc) + sizeTag(1) + sizeVarint(uint64(node.Seconds.x)) + sizeTag(2) + 4
 
 // (shape: a generated optional field that says "value" holds one -- the generated builders set the
 // two together.)
@@ -122,5 +123,6 @@ package data
 
 //@ func data.AppendEncodeUnixFSMetadata
 //@ prop C09
-//@ ensures encoded-length: len(result) == len(enc) + ite(node.MimeType.m == 2, sizeTag(1) + sizeVarint(uint64(len(node.MimeType.v.x))) + len(node.MimeType.v.x), 0)
+//@ ensures encoded-length-without-mime-type: node.MimeType.m != 2 ==> len(result) == len(enc)
+//@ ensures encoded-length-with-mime-type: node.MimeType.m == 2 ==> len(result) == len(enc) + sizeTag(1) + sizeVarint(uint64(len(node.MimeType.v.x))) + len(node.MimeType.v.x)
 //@ at call google.golang.org/protobuf/encoding/protowire.AppendTag#1 assert MimeType-is-wire-number-1: callee_num == 1 && callee_typ == 2 && node.MimeType.m == 2
